@@ -84,6 +84,16 @@ def setAdd (s : St) (t k : Nat) (ttl : Option Nat) : St :=
       | _, _ => none
   { s with ts := upd s.ts t (some ⟨.keys (insertKey k (membersOpt cur)), dl⟩) }
 
+/-- the rule `set_add` had before 9a3ae50 (`val.update(values); self._set(key, val, expire=expire)`: the set takes the
+TTL of the latest add, a TTL-less add keeps the old deadline) - kept only to show, in `Props/C12.lean`, that
+it breaks the property (D20) -/
+def setAddLegacy (s : St) (t k : Nat) (ttl : Option Nat) : St :=
+  let cur := liveAt s.now s.ts t
+  let dl := match deadlineOf s.now ttl with
+    | some d => some d
+    | none => cur.bind (·.dl)
+  { s with ts := upd s.ts t (some ⟨.keys (insertKey k (membersOpt cur)), dl⟩) }
+
 /-- `Memory.set_remove(key, value)`: `val = _get(key, set()); val.difference_update(values); self._set(key, val)`
 (`_set` without TTL keeps the deadline of a live entry, none otherwise) -/
 def setRemove (s : St) (t k : Nat) : St :=
